@@ -26,6 +26,7 @@ type c12Recipe struct {
 	TypeStr string   `json:"typeStr"`
 	Seed    uint64   `json:"seed"`
 	NilPtr  int      `json:"nilPtr"`
+	NilCont int      `json:"nilCont"`
 	Budget  int      `json:"budget"`
 	Special bool     `json:"special"`
 	Path    []string `json:"path,omitempty"`
@@ -478,7 +479,7 @@ func c12ValueOf(rc *c12Recipe) (reflect.Value, error) {
 		if rc.TypeIdx < 0 || rc.TypeIdx >= len(c12Menu) {
 			return v, fmt.Errorf("bad type index %d", rc.TypeIdx)
 		}
-		g := &c12Gen{r: vh.NewRand(rc.Seed), nilPtr: rc.NilPtr, budget: rc.Budget, special: rc.Special}
+		g := &c12Gen{r: vh.NewRand(rc.Seed), nilPtr: rc.NilPtr, nilCont: rc.NilCont, budget: rc.Budget, special: rc.Special}
 		v = g.gen(c12Menu[rc.TypeIdx], 0)
 	}
 	if len(rc.Path) > 0 {
@@ -794,6 +795,22 @@ func runC12(ctx *vh.Ctx) error {
 		return fmt.Errorf("menu registration failed: %v", c12RegErr)
 	}
 	if ctx.Replay != nil {
+		var probe struct {
+			Mode string `json:"mode"`
+		}
+		_ = json.Unmarshal(ctx.Replay, &probe)
+		switch probe.Mode {
+		case "loud":
+			c12RunLoudProbes(ctx)
+			return nil
+		case "blackbox":
+			var bc c12BBCase
+			if err := json.Unmarshal(ctx.Replay, &bc); err != nil {
+				return err
+			}
+			c12BlackBox(ctx, &bc)
+			return nil
+		}
 		var c c12Case
 		if err := json.Unmarshal(ctx.Replay, &c); err != nil {
 			return err
@@ -811,13 +828,21 @@ func runC12(ctx *vh.Ctx) error {
 	if err := c12RunBatch(ctx, corpus); err != nil {
 		return err
 	}
-	n := ctx.N(6000, 120000)
+	c12RunLoudProbes(ctx)
+	// black box: interrupt + resume through a checkpoint store
+	bb := ctx.N(200, 3000)
+	for i := 0; i < bb && ctx.TimeLeft(); i++ {
+		c12BlackBox(ctx, &c12BBCase{Mode: "blackbox", StateTy: ctx.Rng.Intn(len(c12BBTypes)), Seed: ctx.Rng.U64(),
+			NilPtr: []int{5, 25, 50}[ctx.Rng.Intn(3)], Budget: []int{12, 40, 120}[ctx.Rng.Intn(3)]})
+	}
+	n := ctx.N(16000, 150000)
 	const batch = 400
 	for done := 0; done < n && ctx.TimeLeft(); done += batch {
 		var rs []c12Recipe
 		for i := 0; i < batch && done+i < n; i++ {
 			rc := c12Recipe{TypeIdx: ctx.Rng.Intn(len(c12Menu)), Seed: ctx.Rng.U64(),
-				NilPtr: []int{5, 25, 50}[ctx.Rng.Intn(3)], Budget: []int{12, 40, 120, 300}[ctx.Rng.Intn(4)], Special: ctx.Rng.Chance(5)}
+				NilPtr: []int{5, 25, 50}[ctx.Rng.Intn(3)], NilCont: []int{0, 0, 0, 0, 2, 30}[ctx.Rng.Intn(6)],
+				Budget: []int{12, 40, 120, 300}[ctx.Rng.Intn(4)], Special: ctx.Rng.Chance(5)}
 			rs = append(rs, rc)
 		}
 		if err := c12RunBatch(ctx, rs); err != nil {
